@@ -52,7 +52,7 @@ type vfEv struct {
 
 type vfC13Scn struct {
 	name   string
-	target string // session | listener
+	target string // session | listener | accepted-of-owning-listener
 	calls  []vfCall
 	events []vfEv
 	sndWnd int
@@ -119,6 +119,10 @@ func vfC13Scenarios() []vfC13Scn {
 		{name: "Write/window-enlarged-while-blocked", target: "session", sndWnd: 2, pre: []string{"fill"}, calls: []vfCall{W(0, 0, "ok", 20*ms, 35*ms)}, events: []vfEv{{20 * ms, "growwnd", 0}}},
 		{name: "Write/two-writers-window-enlarged", target: "session", sndWnd: 2, pre: []string{"fill"}, calls: []vfCall{W(0, 0, "ok", 20*ms, 45*ms), W(0, 0, "ok", 20*ms, 45*ms)}, events: []vfEv{{20 * ms, "growwnd", 0}}},
 		{name: "Write/after-close-fails", target: "session", pre: []string{"Close"}, calls: []vfCall{W(0, 0, "closed", 0, slack)}},
+		// ---- sessions accepted from a listener that owns its transport: closing the listener closes the transport under them
+		{name: "Read/accepted-session/owning-listener-closed-while-blocked", target: "accepted-of-owning-listener", calls: []vfCall{R(0, 0, "error", 15*ms, 15*ms+slack)}, events: []vfEv{{15 * ms, "CloseListener", 0}}},
+		{name: "Read/accepted-session/owning-listener-closed-before", target: "accepted-of-owning-listener", pre: []string{"CloseListener", "settle"}, calls: []vfCall{R(0, 0, "error", 0, slack)}},
+		{name: "Read/accepted-session/two-readers-owning-listener-closed", target: "accepted-of-owning-listener", calls: []vfCall{R(0, 0, "error", 15*ms, 15*ms+slack), R(0, 0, "error", 15*ms, 15*ms+slack)}, events: []vfEv{{15 * ms, "CloseListener", 0}}},
 		// ---- Accept
 		{name: "Accept/new-peer", target: "listener", calls: []vfCall{A(0, 0, "session", 20*ms, 20*ms+slack)}, events: []vfEv{{20 * ms, "hello", 0}}},
 		{name: "Accept/deadline-set-before", target: "listener", calls: []vfCall{A(0, 50*ms, "timeout", 50*ms, 50*ms+slack)}},
@@ -162,7 +166,7 @@ func vfClassify(err error) string {
 	if errors.Is(err, io.ErrClosedPipe) {
 		return "closed"
 	}
-	if errors.Is(err, errVfInjected) || strings.Contains(err.Error(), "injected") {
+	if errors.Is(err, errVfInjected) || strings.Contains(err.Error(), "injected") || errors.Is(err, errVfClosed) {
 		return "error"
 	}
 	return "other:" + err.Error()
@@ -194,10 +198,26 @@ func vfC13Run(sc vfC13Scn, async bool) explore.RunFunc {
 					sess, _ = NewConn3(vfConv, laddr, nil, 2, 1, csock)
 				} else if sc.target == "session" {
 					sess, _ = NewConn3(vfConv, laddr, nil, 0, 0, csock)
+				} else if sc.target == "accepted-of-owning-listener" {
+					lis, _ = serveConn(nil, 0, 0, lsock, true) // the listener owns its transport, as Listen sets it up
 				} else {
 					lis, _ = ServeConn(nil, 0, 0, lsock)
 				}
 			})
+			if sc.target == "accepted-of-owning-listener" {
+				// one peer says hello and is accepted; the scripted calls are made on the accepted session
+				lsock.inject(vfUDP(7, 1111), wire.EncodeSegment(wire.Seg{Conv: 77, Cmd: wire.CmdPush, Wnd: 32, Sn: 0, Data: []byte("hi")}, -1))
+				lis.SetReadDeadline(vrt.Now().Add(time.Second))
+				a, err := lis.AcceptKCP()
+				if err != nil {
+					bad("C13:setup", "accept failed: %v", err)
+					return
+				}
+				lis.SetReadDeadline(time.Time{})
+				buf := make([]byte, 16)
+				a.Read(buf) // consume the greeting
+				sess = a
+			}
 			if sess != nil {
 				sess.SetNoDelay(1, 10, 2, 1)
 				if sc.sndWnd > 0 {
